@@ -11,7 +11,7 @@ def run(v, tier):
                       'validity of every generated Metamath proof is established by MMVerify under TLC (clause mm-invalid would be a defect of the generator, exit 2)',
                       'image compared modulo injective renaming of symbols (global) and metavariables (per pattern)']
     reqs, meta = [], []
-    n = 25 if quick else 250
+    n = 60 if quick else 250
     for i in range(n):
         seed = rng.random()
         kw = dict(nconstr=rng.choice([1, 2, 3]), naxioms=rng.choice([2, 3, 4]), nrules=rng.choice([0, 1, 2]), nsugar=rng.choice([0, 0, 1, 2]), nquoted=rng.choice([0, 0, 1, 2]))
